@@ -352,7 +352,64 @@ struct Cell {
   uint32_t r_epoch[4] = {0, 0, 0, 0}, r_pc[4] = {0, 0, 0, 0};
 };
 struct Word { Cell b[8]; };
-static std::unordered_map<uintptr_t, Word> g_shadow;
+// Open-addressing table word-index -> Word.  Keys and values live in separate
+// lazily committed mappings, so probing touches only the key array and an
+// untouched slot costs no memory.  Iteration order is never used.
+struct ShadowTab {
+  static const uintptr_t EMPTY = 0, TOMB = 1;
+  uintptr_t *keys = nullptr;
+  Word *vals = nullptr;
+  size_t cap = 0, used = 0, tomb = 0;
+  static void *map(size_t bytes) {
+    void *p = mmap(nullptr, bytes, PROT_READ | PROT_WRITE, MAP_PRIVATE | MAP_ANONYMOUS | MAP_NORESERVE, -1, 0);
+    if (p == MAP_FAILED) abort();
+    return p;
+  }
+  void alloc(size_t c) { cap = c; used = tomb = 0; keys = (uintptr_t *)map(c * sizeof(uintptr_t)); vals = (Word *)map(c * sizeof(Word)); }
+  static inline size_t hash(uintptr_t k) { return (size_t)((k * 0x9e3779b97f4a7c15ULL) >> 20); }
+  bool empty() const { return used == 0; }
+  Word *find(uintptr_t k) {
+    if (!cap) return nullptr;
+    for (size_t i = hash(k) & (cap - 1);; i = (i + 1) & (cap - 1)) {
+      if (keys[i] == k) return &vals[i];
+      if (keys[i] == EMPTY) return nullptr;
+    }
+  }
+  void grow() {
+    ShadowTab n;
+    n.alloc(used * 4 > cap ? cap * 2 : cap);
+    for (size_t i = 0; i < cap; i++)
+      if (keys[i] > TOMB) { Word *w = n.get(keys[i]); *w = vals[i]; }
+    munmap(keys, cap * sizeof(uintptr_t));
+    munmap(vals, cap * sizeof(Word));
+    *this = n;
+  }
+  Word *get(uintptr_t k) {   // find or insert (zero-initialised)
+    if (!cap) alloc(1 << 18);
+    if ((used + tomb) * 2 > cap) grow();
+    size_t first_tomb = (size_t)-1;
+    for (size_t i = hash(k) & (cap - 1);; i = (i + 1) & (cap - 1)) {
+      if (keys[i] == k) return &vals[i];
+      if (keys[i] == TOMB && first_tomb == (size_t)-1) first_tomb = i;
+      if (keys[i] == EMPTY) {
+        size_t at = first_tomb != (size_t)-1 ? first_tomb : i;
+        if (at == first_tomb) tomb--;
+        keys[at] = k;
+        memset(&vals[at], 0, sizeof(Word));
+        used++;
+        return &vals[at];
+      }
+    }
+  }
+  void erase(uintptr_t k) {
+    if (!cap) return;
+    for (size_t i = hash(k) & (cap - 1);; i = (i + 1) & (cap - 1)) {
+      if (keys[i] == k) { keys[i] = TOMB; used--; tomb++; return; }
+      if (keys[i] == EMPTY) return;
+    }
+  }
+};
+static ShadowTab g_shadow;
 
 static inline uint32_t mk_epoch(int tid, Clk c) { return ((uint32_t)(tid + 1) << 24) | (c & 0xffffff); }
 static inline int ep_tid(uint32_t e) { return (int)(e >> 24) - 1; }
@@ -374,9 +431,9 @@ static void report_race(uintptr_t addr, bool cur_write, uintptr_t cur_pc, int ot
 }
 
 static inline bool last_access_by_other(uintptr_t addr) {
-  auto it = g_shadow.find(addr >> 3);
-  if (it == g_shadow.end()) return false;
-  const Cell &c = it->second.b[addr & 7];
+  Word *wp = g_shadow.find(addr >> 3);
+  if (!wp) return false;
+  const Cell &c = wp->b[addr & 7];
   if (c.w_epoch && ep_tid(c.w_epoch) != g_cur) return true;
   for (int i = 0; i < 4; i++) if (c.r_epoch[i] && ep_tid(c.r_epoch[i]) != g_cur) return true;
   return false;
@@ -398,7 +455,7 @@ static void shadow_access(uintptr_t addr, size_t size, bool write, uintptr_t pc)
   uint32_t my = mk_epoch(g_cur, t.vc.c[g_cur]);
   for (size_t k = 0; k < size; k++) {
     uintptr_t a = addr + k;
-    Word &w = g_shadow[a >> 3];
+    Word &w = *g_shadow.get(a >> 3);
     Cell &c = w.b[a & 7];
     if (c.w_epoch) {
       int wt = ep_tid(c.w_epoch);
@@ -430,8 +487,7 @@ static void clear_shadow(uintptr_t addr, size_t size) {
   uintptr_t lo = addr >> 3, hi = (addr + size + 7) >> 3;
   if (hi - lo > 65536) hi = lo + 65536;
   for (uintptr_t w = lo; w < hi; w++) {
-    auto it = g_shadow.find(w);
-    if (it != g_shadow.end()) g_shadow.erase(it);
+    g_shadow.erase(w);
   }
 }
 
